@@ -5,8 +5,8 @@ import os
 
 VERIF = os.path.dirname(os.path.dirname(os.path.abspath(__file__)))
 
-TECH = ("explicit TLA+ specification (spec/*.tla) model-checked with TLC + TLC trace validation of events recorded from "
-        "the real libnop templates (nopexec executor)")
+TECH = ("explicit TLA+ specification (spec/*.tla) model-checked with TLC (one module also proved inductive with Apalache) "
+        "+ TLC trace validation of events recorded from the real libnop templates (nopexec executor)")
 
 NOTE = ("Trusted: TLC/SANY 1.8.0 and CommunityModules; g++ 12 and sanitizer runtimes; the harness wrappers and the generated "
         "C++ type <-> schema <-> abstract value mapping (round-tripped through the spec on every run); the reading of "
@@ -31,7 +31,9 @@ CHECKS = {
             "(MC_Lang).", "6 C04, 13.2"),
     "C05": ("Every strict prefix of implementation-produced encodings of every pool type read through every reader kind "
             "(buffer, pedantic, stringstream, ifstream, fd, BoundedReader over each): TrCodec.tla C05RC requires a non-ok "
-            "status for each, incl. an FdReader on a pipe that delivers short reads; W2/W2f (every prefix of Enc is "
+            "status for each, incl. an FdReader on a pipe that delivers short reads, and tables written with one definition "
+            "of the TLC-emitted version pool, cut at every position and read with another definition (cuts inside skipped "
+            "entries and padding); W2/W2f (every prefix of Enc is "
             "rejected as truncated) and MC_Session.NoGhostSuccess (cut after any byte) model-checked.", "6 C05"),
     "C06": ("GetSize vs bytes emitted for every pool type/value, and every capacity 0..GetSize+2 on BufferWriter, "
             "PedanticBufferWriter, ConstexprBufferWriter and BoundedWriter over each with guard bytes; table entry frames "
@@ -47,10 +49,15 @@ CHECKS = {
             "budget+1, 2^64-1, 2^64-2; every limit; wrapped object failing at any call) and checks Confine, "
             "RefusalUntouched, Transparent; TLC-generated sequences (Gen_IO) and random sequences are replayed on real "
             "BoundedReader/BoundedWriter over an instrumented wrapped object and every call is validated by TrIO.tla "
-            "(status, index, wrapped position, exact wrapped calls).", "6 C16"),
+            "(status, index, wrapped position, exact wrapped calls, capacity()/empty()). Confine.tla models the wrappers in "
+            "their machine arithmetic (wrapped size_ - index_): TLC checks it exhaustively for a 4-bit size_t together with "
+            "its step refinement to IO.tla (MC_Confine), and Apalache proves its invariant inductive for the 64-bit size_t "
+            "(every limit, index and request size in 0..2^64-1).", "6 C16, 13.2"),
     "C17": ("The same TLC-generated and random call sequences are executed directly on every library reader and writer "
             "(and Bounded over each) with element widths 1/2/4/8; TrIO.tla requires each call to be the step of the "
-            "IO.tla contract automaton up to and including the first failing call (FdReader also over a bursty pipe); "
+            "IO.tla contract automaton up to and including the first failing call (FdReader also over a bursty pipe; "
+            "StreamWriter over a stream that takes only cap bytes -> StreamError, FdWriter on /dev/full -> IOError), and "
+            "size()/capacity()/remaining()/empty() to agree with the automaton after every call; "
             "MC_IO checks OneContract on the product of all kinds; 67 generated constexpr values are serialised in "
             "constant expressions, by the constexpr writer at run time and by the pedantic writer, and must agree.", "6 C17"),
     "C18": ("SipHash.tla (SipHash-2-4 transcribed from the paper on 16-bit limbs, self-checked against the reference "
@@ -81,12 +88,14 @@ CHECKS = {
             "MC_Tables checks W6 (every pair of definitions of a history is mutually readable as Project prescribes, reader "
             "positioned after the table) over all histories of <= 4 steps (6 in the thorough tier); TLC emits the 254 "
             "reachable definitions (pool/tables.json) which are instantiated as C++ table types; every ordered (writer, "
-            "reader) pair x entry assignments is written, read and validated by TrCodec.tla C07R (projection, sentinel).", "6 C07"),
+            "reader) pair x entry assignments is written, read - into fresh and into reused, fully populated destinations - "
+            "and validated by TrCodec.tla C07R (projection, sentinel).", "6 C07"),
     "C08": ("Gen_TableMut.tla: TLC takes valid table encodings apart into entry frames and emits every single-defect "
             "reassembly (hash, count, duplicate, unknown, padding, declared size, corrupt/truncated value); the real decoder's "
             "status, value, consumed length and error category are compared with Dec of Wire.tla (TrCodec.tla).", "6 C08"),
     "C09": ("Fungible.tla: DocFungible (the documented fungible pairs as a relation on schemas) and Norm (wire-level "
-            "content); the compiler evaluates IsFungible and Protocol admission on all ordered pairs of a 70-type grammar "
+            "content); the compiler evaluates IsFungible and Protocol admission on all ordered pairs of a 124-type grammar "
+            "(every sequence spelling - vector, std::array, C array, tuple, structure member - over every element class) "
             "(FUNG event): reflexive, symmetric, DocFungible => true, admits = value; every pair reported fungible is "
             "cross-decoded on boundary values and judged by Dec of Wire.tla (accept when the counts fit, corresponding "
             "value, identical re-encoding).", "6 C09"),
